@@ -81,7 +81,7 @@ type probeDesc struct {
 	Variant int    `json:"variant"`
 }
 
-const probeWait = 3 * time.Second
+const probeWait = 2 * time.Second
 
 func pair(res, val int) rec.V { return rec.L(rec.I(res), rec.I(val)) }
 
